@@ -417,16 +417,31 @@ def r10_7(prog, out):
                     out.undecided(key, bi.loc(bb), "request built but not sent from this body")
                     continue
                 errs = error_blocks(bi)
+                # a task spawned here and awaited here whose body sends the same request (a large request applied in batches from a
+                # task of its own): the await of its JoinHandle is as good as the send
+                via_task = set()
+                for sp in bi.spawns:
+                    if sp.task is None:
+                        continue
+                    tcone = prog.cone(sp.task, follow=("call", "closure", "poll"))
+                    if any(cb in tcone for (cb, _b2, _i2, _r2) in prog.constructions(actor.request, v["name"])):
+                        for a in bi.awaits:
+                            if a.origin is not None and a.origin.kind == "call" and a.origin.data == sp.bb and a.ready_bb is not None:
+                                via_task.add(a.ready_bb)
                 rb = prog.facts.body(bi.body.root) if bi.body.root else bi.body
                 is_handle = (bi.body.impl_self or (rb.impl_self if rb else None) or "") in (prog.anchors.ty("Topic"), prog.anchors.ty("Subscription"))
                 if is_handle:
-                    esc = bi.cfg.escapes(0, {a.ready_bb for a in sends if a.ready_bb is not None} | errs, after=False)
+                    esc = bi.cfg.escapes(0, {a.ready_bb for a in sends if a.ready_bb is not None} | errs | via_task, after=False)
                 else:
                     # the handle method was written (or spliced) into a handler / stream body: from the point the request is
                     # built, it is sent
                     esc = bi.cfg.escapes(bb, {a.ready_bb for a in sends if a.ready_bb is not None} | errs, after=True)
+                in_loop = [a for a in sends if bi.cfg.in_loop(a.poll_bb) and not any(h == a.entry_bb for h in bi.cfg.in_loop(a.poll_bb))]
+                own_loops = {h for a in sends for h in bi.cfg.in_loop(a.poll_bb) if not any(x.entry_bb == h for x in bi.awaits)}
                 if esc is None:
                     out.holds(key, bi.loc(sends[0].poll_bb), "every successful return passes the mailbox send")
+                elif own_loops and all(any(h in own_loops for h in bi.cfg.in_loop(a.poll_bb)) for a in sends):
+                    out.undecided(key, bi.loc(sends[0].poll_bb), "the request is sent once per element of a sequence (batches): whether the sequence can be empty is not decided")
                 else:
                     site = esc[-1]
                     for x in esc:
